@@ -604,6 +604,7 @@ func (c *celValidator) convertMatchesFunction(fieldName string, args []*exprpb.E
 
 	str := c.convertASTToGo(args[0], fieldName)
 	pattern := c.convertASTToGo(args[1], fieldName)
+	c.checkPattern(args[1])
 
 	return fmt.Sprintf("regexp.MustCompile(%s).MatchString(%s)", pattern, str)
 }
@@ -680,6 +681,23 @@ func (c *celValidator) convertDurationFunction(fieldName string, args []*exprpb.
 	return fmt.Sprintf("func() time.Duration { d, err := time.ParseDuration(%s); if err != nil { return 0 }; return d }()", arg)
 }
 
+// checkPattern rejects a constant regular expression that does not compile: the
+// generated regexp.MustCompile would panic on every call of Validate.
+func (c *celValidator) checkPattern(pattern *exprpb.Expr) {
+	constant := pattern.GetConstExpr()
+	if constant == nil {
+		return
+	}
+
+	if _, ok := constant.ConstantKind.(*exprpb.Constant_StringValue); !ok {
+		return
+	}
+
+	if _, err := regexp.Compile(constant.GetStringValue()); err != nil {
+		c.fallback(fmt.Sprintf("matches(%q): %v", constant.GetStringValue(), err))
+	}
+}
+
 // convertConstToGo converts CEL constants to Go literals.
 func (c *celValidator) convertConstToGo(constExpr *exprpb.Constant) string {
 	switch constExpr.ConstantKind.(type) {
@@ -730,6 +748,7 @@ func (c *celValidator) convertMethodCall(method string, target *exprpb.Expr, arg
 	case "matches":
 		if len(args) == 1 {
 			pattern := c.convertASTToGo(args[0], fieldName)
+			c.checkPattern(args[0])
 
 			return fmt.Sprintf("regexp.MustCompile(%s).MatchString(%s)", pattern, targetStr)
 		}
